@@ -239,6 +239,33 @@ func inject(fs *vs.Stream, rec, other []byte, fields []field, format int, comple
 			apply("varint-smash", f.kind, replaceSpan(rec, f.off, f.n, append(bytes.Repeat([]byte{0x80}, 11), 0x01)))
 		}
 	}
+	// --- ordinate smash: special float values in coordinate fields
+	if format == fWKB {
+		var ords []field
+		for _, f := range fields {
+			if f.kind == "ord" {
+				ords = append(ords, f)
+			}
+		}
+		if !complete && len(ords) > 12 {
+			keep := append([]field(nil), ords[:4]...)
+			for len(keep) < 12 {
+				keep = append(keep, ords[fs.Intn(len(ords), "ord")])
+			}
+			ords = keep
+		}
+		for _, f := range ords {
+			for _, bits := range []uint64{0x7FF0000000000000, 0xFFF0000000000000, 0x7FF8000000000001, 0x8000000000000000, 1, 0x7FEFFFFFFFFFFFFF, 0xFFEFFFFFFFFFFFFF, 0x0010000000000000} {
+				x := clone(rec)
+				if f.big {
+					binary.BigEndian.PutUint64(x[f.off:], bits)
+				} else {
+					binary.LittleEndian.PutUint64(x[f.off:], bits)
+				}
+				apply("ordinate-smash", "ord", x)
+			}
+		}
+	}
 	// --- sector faults
 	for _, ss := range []int{1, 8, 16, 64, 512} {
 		ns := (n + ss - 1) / ss
